@@ -176,7 +176,7 @@ def gen_freqs(rng, maxR):
         fs = [a + d * k for k in range(R)]
         return "offset_equidistant", (fs if ints else [float(round(f, 6)) for f in fs])
     if r < 0.70:                                    # integers, not equally spaced
-        R = rng.randint(2, min(maxR, 5))
+        R = rng.randint(3, max(3, min(maxR, 5)))
         while True:
             fs = sorted(rng.sample(range(1, 10), R))
             if len(set(b - a for a, b in zip(fs, fs[1:]))) > 1:
@@ -354,7 +354,7 @@ def run(ctx):
             terms.append(g_branch_case(c, o))
         else:
             terms.append(g_process_case(c, o) if o["status"] == "ok" else f"CBranch [] None BSolve")
-    bad = ctx.coq_eval_cases("cases", "From PLV Require Import Num.ShiftRulesModel.", terms, "check_case")
+    bad = ctx.coq_eval_cases("cases", "From Coq Require Import QArith.\nFrom PLV Require Import Num.ShiftRulesModel.", terms, "check_case")
     for k in bad:
         i = tie_idx[k]
         c, o = cases[i], obs[i]
